@@ -35,8 +35,8 @@ def groups(ctx):
     else:
         multi = [(r, c, s, 30) for r in (2, 3, 4) for (c, s) in ((1, 'lfq'), (2, 'ap'), (4, 'rnd'))]
         single = [(4, 'lfq', 60), (8, 'll', 60)]
-    gs = [{'nranks': r, 'cores': c, 'sched': s, 'n': n, 'gen': {'inserters': False}, 'timeout': 60 if ctx.quick else 240} for r, c, s, n in multi]
-    gs += [{'nranks': 1, 'cores': c, 'sched': s, 'n': n, 'gen': {}, 'timeout': 25 if ctx.quick else 90} for c, s, n in single]
+    gs = [{'nranks': r, 'cores': c, 'sched': s, 'n': n, 'gen': {'inserters': False, 'tcapi': True}, 'timeout': 60 if ctx.quick else 240} for r, c, s, n in multi]
+    gs += [{'nranks': 1, 'cores': c, 'sched': s, 'n': n, 'gen': {'tcapi': True}, 'timeout': 25 if ctx.quick else 90} for c, s, n in single]
     return gs
 
 
